@@ -73,6 +73,16 @@ CLAIMED = {
              'generator and HTML whitespace normaliser. Documents whose round trip already changes without a limit are C09\'s; marker-like words are kf_wrap_block_marker_word. One fix: commit (budget 0).',
         technique='Coq proof (induction over word/fragment lists) + extracted-model correspondence; meaning clause by generator-oracle',
         design='5/C10'),
+    'C09': dict(
+        text='PARTIAL. Proved for ALL token trees about the Gallina model of the Markdown renderer: without a line limit the fragment texts are written '
+             'verbatim with exactly one final newline; HTML blocks are reproduced verbatim; blank lines and link reference definitions are written in '
+             'place; container prefixes go exactly in front of the children\'s lines (count preserved). The model is tied to the code by X-md on the 652 '
+             'spec examples and generated documents x normalize_whitespace. The three clauses of the property themselves (same meaning, idempotent, exact on '
+             'normal form) need a parser model and are decided by the oracle on the implementation; inputs in the seven recorded finding classes are '
+             'identified by classifiers and reported as KNOWN-FINDING.',
+        note='Trusted: Coq kernel, extraction, hand-written model of markdown_renderer.py, document generator, finding classifiers. No theorem yet covers the parse half of the round trip.',
+        technique='Coq proof of the renderer half (induction over fragment lists) + extracted-model correspondence; round-trip clauses by generator-oracle',
+        design='5/C09'),
 }
 
 NOT_YET = {}
